@@ -14,6 +14,7 @@ import (
 	"verif/core"
 	"verif/evmkit"
 
+	"github.com/dappledger/AnnChain/chain/app/evm"
 	"github.com/dappledger/AnnChain/eth/common"
 	gtypes "github.com/dappledger/AnnChain/gemmill/types"
 )
@@ -178,6 +179,7 @@ type evmExec struct {
 	step  int
 	bound int
 	dead  bool // a panic happened inside the pool: instance unusable
+	prior map[txid]string // last ReceiveTx verdict per tx in the literally executed part of the history
 }
 
 const reapAll = 1 << 10
@@ -464,10 +466,12 @@ func (x *evmExec) apply(letter string) string {
 			e.Payload = 100 + p
 		}
 		raw := x.ethRaw(e)
+		before := x.w.c.App.VerifPoolSnapshot()
 		var err error
 		if !x.guard("ReceiveTx", func() { err = x.pool.ReceiveTx(gtypes.Tx(raw)) }) {
 			return "dead"
 		}
+		x.refusalOracle(e, raw, before, err == nil)
 		if k := x.m.receiveEth(e, err == nil); k != "" {
 			x.find("ethTxPool.ReceiveTx", k, "eth", fmt.Sprintf("ReceiveTx(%s) returned nil although the pool already holds exactly this tx", e.id()))
 		}
@@ -813,4 +817,47 @@ func runEvm(w *evmWorker, from *evmState, hist []string, suffix int, mode string
 
 func evmWorkDir(run *core.Run, cfg string, i int) string {
 	return filepath.Join(run.WorkDir(), fmt.Sprintf("evm-%s-%d", cfg, i))
+}
+
+// refusalOracle decides the clause "never drops an executable transaction while
+// below its capacity" for a REFUSED submission.  A refusal is legitimate when the
+// tx is stale, when the pool holds this very tx (exact duplicate) or another tx
+// of the same (account, nonce) (either replacement policy), when a committed
+// block contained it, or when a queue is at its limit.  Occupancy is read from
+// the real pool (read-only snapshot taken before the call), so the rule needs no
+// approximation of where the pool keeps what.  Anything else is a drop: the tx is
+// executable right now, the pool has room, and the pool does not have it.
+func (x *evmExec) refusalOracle(e ethID, raw []byte, before evm.VerifPoolSnapshot, accepted bool) {
+	id := e.id()
+	if x.prior == nil {
+		x.prior = map[txid]string{}
+	}
+	was, seen := x.prior[id]
+	if accepted {
+		x.prior[id] = "accepted"
+		return
+	}
+	x.prior[id] = "refused"
+	if e.Nonce != x.m.nonce[e.Acct] || x.m.committed[id] {
+		return
+	}
+	if len(before.Waiting) >= before.WaitingLimit || len(before.Pending) >= before.PendingLimit {
+		return
+	}
+	addr := x.accts[e.Acct].acc.Addr
+	for _, q := range [][]evm.VerifPoolEntry{before.Pending, before.Waiting} {
+		for _, en := range q {
+			if common.Address(en.Addr) == addr && en.Nonce == e.Nonce {
+				return // the slot is taken (by this tx or by a rival)
+			}
+		}
+	}
+	shape := "never-submitted-before"
+	if seen {
+		shape = "earlier-submission-" + was
+	}
+	if x.res.Restored && !seen {
+		shape = "history-prefix-not-executed-literally"
+	}
+	x.find("ethTxPool.ReceiveTx", "executable-refused-below-capacity", shape, fmt.Sprintf("ReceiveTx(%s) is refused although the tx is executable now (account nonce %d), no tx of that account and nonce is queued, no block contained it, and the queues hold %d/%d pending and %d/%d waiting", id, x.m.nonce[e.Acct], len(before.Pending), before.PendingLimit, len(before.Waiting), before.WaitingLimit))
 }
